@@ -30,6 +30,12 @@ class ResultHistory:
         self.v = v
         self.keep = keep
         self._h = {}
+        # under the repository's own tests (vf.pytest_plugin) the client is the test code, which is free to overwrite the
+        # arrays it was handed: the history statements are about results the client left alone, so they are made by the
+        # harness workloads only
+        import os
+
+        self.enabled = not os.environ.get("VF_PLUGIN_PROP")
 
     def _entry(self, obj):
         key = id(obj)
@@ -48,6 +54,8 @@ class ResultHistory:
         return lst
 
     def observe(self, obj, result, label, overwritten=(), **info):
+        if not self.enabled:
+            return
         lst = self._entry(obj)
         if lst is None or not isinstance(result, np.ndarray):
             return
